@@ -340,11 +340,17 @@ class _Marshaller:
         # but Python 3 marshaling, by default, will dump strings as
         # unicode. Force marsaling this type as string.
 
+        # Before Python 2.3 the integer fields of a code object are 16 bits wide.
+        if self.python_version and self.python_version < (2, 3):
+            w_int = self.w_short
+        else:
+            w_int = self.w_long
+
         self._write(TYPE_CODE)
-        self.w_long(x.co_argcount)
-        self.w_long(x.co_nlocals)
-        self.w_long(x.co_stacksize)
-        self.w_long(x.co_flags)
+        w_int(x.co_argcount)
+        w_int(x.co_nlocals)
+        w_int(x.co_stacksize)
+        w_int(x.co_flags)
         self.dump_string(x.co_code)
 
         # If running in a Python3 interpreter, some constants will get
@@ -368,7 +374,7 @@ class _Marshaller:
         self.dump(x.co_cellvars)
         self.dump_string(x.co_filename)
         self.dump_string(x.co_name)
-        self.w_long(x.co_firstlineno)
+        w_int(x.co_firstlineno)
         self.dump_string(x.co_lnotab)
         return
 
